@@ -115,6 +115,12 @@ func (c sinkCtx) cfgs(thorough bool) []core.Cfg {
 			}
 		}
 	}
+	if len(out) > 0 {
+		// the same safe configuration with the switches that are off handed over explicitly as option(name, false)
+		x := out[len(out)-1]
+		x.XHTML, x.HardWraps, x.Explicit = false, false, true
+		out = append(out, x)
+	}
 	return out
 }
 
@@ -273,6 +279,20 @@ func runC03(r *core.Run) {
 		s.States.Store(int64(len(names)))
 		s.Transitions.Store(s.Evals.Load())
 		s.Done()
+	}
+	// every ASCII byte inside, before and behind an attribute name and value
+	{
+		var docs [][]byte
+		for b := 0; b < 128; b++ {
+			c := string(rune(b))
+			for _, t := range []string{"# h {data-a§b=v}", "# h {a§b=v}", "# h {§=v}", "# h {k=v§}", "# h {k=\"v§\"}", "h {.c§d}\n===", "# h {#i§j}", "# h {data-§}", "# h {k§}"} {
+				docs = append(docs, []byte(strings.ReplaceAll(t, "§", c)), []byte(strings.ReplaceAll(t, "§", c+c)))
+			}
+		}
+		for _, cn := range []string{"core+attr", "all+attr+autoid+xhtml"} {
+			docsSub(r, "attribute-bytes/"+cn, "every ASCII byte (alone and doubled) inside an attribute name, a data-* name, a bare name, a class, an id, an unquoted and a quoted value of a heading attribute block, under "+cn+": same oracle (attribute names from the fixed vocabulary or data-*, well-formed tags)",
+				core.MustCfg(cn), docs, func(s *core.Sub, cv *core.Conv, w []byte) { c03Case(s, cv, w, "attribute-bytes") })
+		}
 	}
 	for _, cn := range []string{"core+attr", "all+attr+autoid+xhtml"} {
 		attrEntrySub(r, "attribute-entries/"+cn, core.MustCfg(cn), 3, func(s *core.Sub, cv *core.Conv, w []byte) { c03Case(s, cv, w, "attribute-entries") })
